@@ -84,3 +84,44 @@ func purityPart(r *core.Run) {
 	}
 	r.Set("purity_distinct_values", len(first))
 }
+
+// tagPart: tags of every length around the digest size (0, 1, 31, 32, 33, 63, 64, 65 bytes), each together with its
+// own SHA-512/256 digest and the digest of that (a tag that already IS a digest is the usual case: the protocols'
+// session ids are), times a few integer tuples: all (tag, tuple) inputs must have distinct digests.
+func tagPart(r *core.Run) {
+	var tags [][]byte
+	for _, n := range []int{0, 1, 2, 31, 32, 33, 63, 64, 65} {
+		t := core.Bytes(fmt.Sprintf("c16/tag/%d", n), n)
+		tags = append(tags, t)
+		h1 := common.SHA512_256(t)
+		if n == 0 {
+			h1 = common.SHA512_256([]byte{}) // (nil for no input at all: hash the empty string)
+		}
+		if h1 != nil {
+			tags = append(tags, h1, common.SHA512_256(h1))
+		}
+	}
+	tuples := [][]int64{{}, {0}, {1}, {1, 2}, {2, 1}, {0, 0, 1}}
+	set := &digestSet{m: map[[16]byte]string{}}
+	for _, tu := range tuples {
+		ints := make([]*big.Int, len(tu))
+		for i, v := range tu {
+			ints[i] = big.NewInt(v)
+		}
+		for _, tag := range tags {
+			r.Count("tag_inputs", 1)
+			d := common.SHA512_256i_TAGGED(tag, ints...)
+			canon := fmt.Sprintf("tag=%x;%v", tag, tu)
+			if d == nil {
+				if len(tu) > 0 {
+					r.Violate("hash/SHA512_256i_TAGGED/nil-digest", "nil digest", canon)
+				}
+				continue
+			}
+			if prev, ok := set.add(d.FillBytes(make([]byte, 32)), canon); !ok && prev != canon {
+				r.Violate("hash/SHA512_256i_TAGGED/tag-collision", "two distinct (tag, integer tuple) inputs share a digest (tags of digest size / tags that are digests of other tags)", map[string]string{"a": prev, "b": canon})
+			}
+		}
+	}
+	r.Set("tag_alphabet", len(tags))
+}
